@@ -8,7 +8,11 @@ suf=$1; shift
 R=/tmp/yqv_triage_repo; V=/tmp/yqv_triage_verif
 git -C /repo worktree remove --force $R 2>/dev/null; rm -rf $R $V
 git -C /repo worktree add -q --detach $R HEAD || exit 2
-git -C /repo diff HEAD | git -C $R apply --allow-empty 2>/dev/null
+# NO_DIFF=1: take /repo's HEAD only (another tool has a seed applied in /repo's working tree right now);
+# CONTRACTS=<file>: try out a contract file that is not committed yet
+if [ -z "${NO_DIFF:-}" ]; then git -C /repo diff HEAD | git -C $R apply --allow-empty 2>/dev/null; fi
+if [ -n "${CONTRACTS:-}" ]; then cp "$CONTRACTS" $R/pkg/yqlib/zz_verif_contracts.go; fi
+if [ -n "${CONTRACTS_CMD:-}" ]; then cp "$CONTRACTS_CMD" $R/cmd/zz_verif_contracts.go; fi
 git -C $R add -A >/dev/null; git -C $R -c user.name=triage -c user.email=t@t commit -qm "triage base" --allow-empty
 mkdir -p $V; rsync -a --exclude .git --exclude replay --exclude evidence /verif/ $V/; mkdir -p $V/evidence $V/replay
 export YQ_REPO=$R VERIF_DIR=$V
